@@ -54,6 +54,7 @@ RULE_FUNCS = [
     (D.r_pooled_layers, ['R15.1', 'R15.2', 'R15.3', 'R15.5']),
     (GR.r_gap, ['R17']),
     (VR.r_viz, ['R20.a', 'R20.b', 'R20.c', 'R20.d']),
+    (VR.r_viz_indexing, ['R20.a']),
     (WR.r_width_combinators, ['R13.c']),
     (FR.r_simple_fringe, ['R11.a']),
     (FR.r_maxub, ['R11.b']),
